@@ -69,3 +69,38 @@ Proof.
   apply phase5_rel; auto. cbn. reflexivity.
 Qed.
 Print Assumptions C17_brandes_koepf_then_routing.
+
+(* ---------- the WHOLE Layout, from the raw edge list (Proofs/ScaleLayout*.v): multiplying NodeSpacing, LayerSpacing, the fixed
+   size and every entry of the size map by c > 0 gives the same identifiers and crossing numbers, every output coordinate, size and
+   route point multiplied by c, every discrete field (edge ends, arrow flag, which nodes exist) unchanged — or the same error.
+   For every positioner but the NetworkSimplex one (Brandes-Koepf with any forced layout included), every router of the model,
+   both orderings; no hypothesis on the identifiers, the graph or the other options. That flat routes (whose polyline/ortho shape
+   uses absolute constants) do not occur is PROVED of the pipeline state (ScaleLayout4.pipeline_not_flat), not assumed. ---------- *)
+From Autog Require Import Layout Pipeline PipelineBK PipelineNoop E2EBridge ScaleLayout5 ScaleLayout6 ScaleLayout7.
+Local Open Scope Q_scope.
+
+Theorem C17_layout_scale : forall (A : Type) (eqA : A -> A -> bool) c bk o fixed sizes es,
+  0 < c -> o_p4 o <> NsPositioner ->
+  out_rel c (layout_x A eqA bk o fixed sizes es)
+            (layout_x A eqA bk (scale_options c o) (scale_fixed c fixed) (scale_sizes A c sizes) es).
+Proof. exact layout_x_scale_all. Qed.
+Print Assumptions C17_layout_scale.
+
+Theorem C17_layout_scale_noop_ordering : forall (A : Type) (eqA : A -> A -> bool) c bk o fixed sizes es,
+  0 < c -> o_p4 o <> NsPositioner ->
+  out_rel c (layout_n A eqA bk o fixed sizes es)
+            (layout_n A eqA bk (scale_options c o) (scale_fixed c fixed) (scale_sizes A c sizes) es).
+Proof. exact layout_n_scale_all. Qed.
+Print Assumptions C17_layout_scale_noop_ordering.
+
+(* not vacuous: a two-component input with a long edge, a self loop and heterogeneous sizes, Brandes-Koepf + Ortho, c = 1/8: both
+   sides are Ok (ScaleLayout7.ex_bk_ortho_8th_ok) and related; and the exclusion of the NetworkSimplex positioner is necessary for the
+   whole Layout too *)
+Example C17_layout_scale_instance :
+  out_rel (1#8) (ex_plain (-1) (ex_o DepthFirst NetworkSimplex OtherPositioner Ortho))
+                (ex_run (1#8) (-1) (ex_o DepthFirst NetworkSimplex OtherPositioner Ortho)).
+Proof. exact ex_thm. Qed.
+Example C17_layout_ns_positioner_refuted :
+  out_relb (1#8) (ex_plain 0 (ex_o DepthFirst LongestPath NsPositioner Straight))
+                 (ex_run (1#8) 0 (ex_o DepthFirst LongestPath NsPositioner Straight)) = false.
+Proof. exact ex_ns_positioner_refuted. Qed.
